@@ -10,6 +10,7 @@
 //  * step budget exhausted               -> the scheduler "releases" all threads to run freely; case is inconclusive
 //  * background threads created by init() are adopted through thread_begin(); their sleeps are virtual
 #pragma once
+#include <algorithm>
 #include <atomic>
 #include <condition_variable>
 #include <cstdint>
@@ -120,6 +121,7 @@ public:
         }
         // policy
         mode_ = bytes_.byte() % 3;
+        if (!background_.empty() && mode_ == 2) { mode_ = 0; } // priority scheduling starves the workers behind never-ending background threads
         std::uint8_t t = bytes_.byte();
         thresh_ = (t % 3 == 0) ? 64 : (t % 3 == 1 ? 24 : 128);
         next_preempt_ = read_delta();
@@ -181,6 +183,9 @@ public:
             } else {
                 next = pick(c, self);
             }
+        } else if (access == yv::Y_SLEEP && !c.empty()) {
+            // a sleeping (background) thread gives up the processor; it stays runnable: virtual time
+            next = pick(c, self);
         } else if (((preempt_cats >> cat) & 1U) != 0 && !c.empty() && want_preempt(self, c)) {
             next = pick(c, self);
             ++preemptions;
@@ -226,6 +231,8 @@ public:
     void wait_background_registered() {
         std::unique_lock<std::mutex> lk(mu_);
         done_cv_.wait(lk, [&] { return static_cast<int>(background_.size()) >= adopt_expected_; });
+        // the OS decides which background thread registers first; the schedule must not depend on it
+        std::sort(background_.begin(), background_.end(), [](const LThread* a, const LThread* b) { return a->bg_kind < b->bg_kind; });
     }
     void thread_begin(int kind) noexcept {
         std::unique_lock<std::mutex> lk(mu_);
@@ -273,6 +280,45 @@ public:
         bg_iterations_[0] = bg_iterations_[1] = bg_iterations_[2] = bg_iterations_[3] = 0;
     }
     std::uint64_t bg_iterations(int kind) const { return bg_iterations_[kind & 3]; }
+    // has the adopted background thread of this kind left its loop (thread_end) ?
+    bool background_finished(int kind) {
+        std::unique_lock<std::mutex> lk(mu_);
+        for (auto* b : background_) {
+            if (b->bg_kind == kind && b->state == TState::Finished) { return true; }
+        }
+        return false;
+    }
+    std::size_t background_count() {
+        std::unique_lock<std::mutex> lk(mu_);
+        return background_.size();
+    }
+    // called by a logical thread: hand the baton to a background thread (alternating), i.e. let virtual time pass
+    void grant_background() noexcept {
+        LThread* self = tl_self;
+        if (self == nullptr || tl_noyield != 0 || released_.load()) { return; }
+        std::unique_lock<std::mutex> lk(mu_);
+        if (!active_) { return; }
+        ++steps;
+        if (steps > step_limit) {
+            release_all();
+            return;
+        }
+        LThread* next = nullptr;
+        for (std::size_t i = 0; i < background_.size(); ++i) {
+            LThread* b = background_[(grant_rr_ + i) % background_.size()];
+            if (b->state == TState::Runnable || (b->state == TState::Blocked && writes_performed_ > b->writes_seen)) {
+                next = b;
+                grant_rr_ = (grant_rr_ + i + 1) % background_.size();
+                break;
+            }
+        }
+        if (next == nullptr) { return; }
+        ++switches;
+        current_ = next;
+        next->cv.notify_one();
+        self->cv.wait(lk, [&] { return current_ == self || released_.load(); });
+        self->last_writes = writes_performed_;
+    }
     bool is_released() const { return released_.load(); }
     std::size_t yields_of(std::size_t worker) const { return workers_[worker]->lt.yields; }
 
@@ -303,6 +349,7 @@ private:
     std::uint64_t next_preempt_{0};
     std::uint64_t change_points_[3]{0, 0, 0};
     std::uint64_t bg_iterations_[4]{0, 0, 0, 0};
+    std::size_t grant_rr_{0};
 
     static void set_stack_bounds(LThread* l) {
         pthread_attr_t attr;
